@@ -124,8 +124,23 @@ pub enum AnySocket {
     XPub(XPubSocket),
 }
 
+thread_local! {
+    /// monitor receivers of the sockets of the execution in progress (kept alive so that every event the
+    /// library emits goes through its real emit path; released by `finish`)
+    static MONITORS: std::cell::RefCell<Vec<futures::channel::mpsc::Receiver<zeromq::SocketEvent>>> = const { std::cell::RefCell::new(Vec::new()) };
+}
+
 impl AnySocket {
+    /// Every socket of an E3 scenario has a monitor installed: the event paths (Accepted, AcceptFailed,
+    /// Disconnected, ...) are part of what the explored code does.
     pub fn new(ty: Ty, identity: Option<&[u8]>) -> AnySocket {
+        let mut s = Self::new_unmonitored(ty, identity);
+        let rx = s.monitor();
+        MONITORS.with(|m| m.borrow_mut().push(rx));
+        s
+    }
+
+    pub fn new_unmonitored(ty: Ty, identity: Option<&[u8]>) -> AnySocket {
         let mut o = SocketOptions::default();
         if let Some(id) = identity {
             o.peer_identity(PeerIdentity::try_from(id.to_vec()).expect("identity"));
@@ -408,6 +423,7 @@ pub fn finish(mut v: Verdict) -> Verdict {
     }
     explore::stash_verdict(&v);
     world::teardown();
+    MONITORS.with(|m| m.borrow_mut().clear());
     v
 }
 
